@@ -1,7 +1,7 @@
 # -*- coding: utf-8 -*-
 r"""C09 - parsing is a pure function of input, context and flags.
 
-ES over call histories: every sequence of length <= h over a menu of 10 parse calls chosen
+ES over call histories: every sequence of length <= h over a menu of 14 parse calls chosen
 so that every shared mutable object (process-wide cache of standard argument parsers, each
 parser's lazily built inner parser, the cached default context, one custom context shared
 by all walkers of a history) is touched from different calls.  The state is the history
@@ -38,6 +38,10 @@ MENU = [
     (r'\mm{a}}\mo[\mv{a{b', 'A', False),
     (r'\textbf{a}\frac12\sqrt[3]{x}\\*[1]\item[a]$$x$$\begin{itemize}[b]\item c\end{itemize}', 'D', False),
     (r'\mv{a{b}c}\mvb(a(b)c)', 'A', True),
+    (r'\begin{elist}\xitem[a] b\textbf{x}\end{elist}', 'X', False),
+    (r'c \xitem[b] \pm{y}~', 'X', False),
+    (r'\section* [s]{T}\cite[a] [b]{k}', 'D', False),
+    (r'$$a\\ [A]\\* [B]$$ \item [z]', 'D', False),
 ]
 
 
@@ -68,9 +72,10 @@ def do_call(i):
     from pylatexenc.latexwalker import LatexWalkerParseError
     s, ctx, tol = MENU[i]
     db = contexts.get(ctx)
-    before = canon_db(db)
+    dbs = [db] + ([contexts.get('Xbase')] if ctx == 'X' else [])
+    before = [canon_db(x) for x in dbs]
     st, res = run_guarded(contexts.parse, s, ctx, tol)
-    after = canon_db(db)
+    after = [canon_db(x) for x in dbs]
     if st == 'ok':
         out = ('tree', canon.canon_node(res[1]))
     elif st == 'timeout':
@@ -172,12 +177,19 @@ def plan(tier):
         shards=shards,
         bounds=dict(h=h, menu=[list(m) for m in MENU]),
         baselines=base,
-        rule=('all call histories of length <= %d over the 10-entry menu of (document, context, flags) parse calls; each '
+        rule=('all call histories of length < %d, and those of length %d that stay within one context family, over the %d-entry menu of (document, context, flags) parse calls; each '
               'history is run in a pristine forked process; after every call its canonical tree/error is compared with the '
               'fresh-interpreter baseline of that call and the context database canonical form with its value before the call. '
-              'non-trivial = histories with at least two calls; histories are distinct by construction, no state merging.' % h),
+              'non-trivial = histories with at least two calls; histories are distinct by construction, no state merging.' % (h, h, len(MENU))),
         assumptions=['a forked child of the never-parsing parent is an initial state (module caches empty, default context not yet built)'],
     )
+
+
+GROUPS = None
+
+
+def group_of(i):
+    return MENU[i][1][0]       # 'A' (custom all-argument-types), 'D' (default), 'X' (context-extending)
 
 
 def run_shard(shard, tier, acc):
@@ -192,6 +204,11 @@ def run_shard(shard, tier, acc):
     for extra in range(0, h - 2 + 1):
         for suf in itertools.product(range(n), repeat=extra):
             hist = pre + suf
+            # the longest histories are restricted to calls on one context family (quick: length 3,
+            # thorough: length 4); all shorter histories mix the families freely
+            if len(hist) == h and len(hist) >= 3 and len(set(group_of(i) for i in hist)) > 1:
+                acc.count('skipped_cross_family_longest')
+                continue
             check_history(hist, base, acc)
             acc.sample(dict(history=list(hist)))
 
